@@ -673,6 +673,7 @@ fn c15_token_claims(rng: &mut Rng, allow_time: bool) -> Vec<ClaimOp> {
                 1 => Claim::Nbf("2020-01-01T00:00:00+00:00".into()),
                 _ => Claim::Iat("2020-01-01T00:00:00+00:00".into()),
             },
+            5 if rng.chance(1, 3) => Claim::Custom(["Role", "userId", "X-Seats", "ÄB", "roLE"][rng.below(5)].to_string(), json!(format!("v{}", rng.below(50)))),
             5 => Claim::Custom(format!("n{}", i), json!(rng.below(100) as i64)),
             6 => Claim::Custom(format!("b{}", i), json!(rng.chance(1, 2))),
             7 => Claim::Custom(format!("o{}", i), gens::json_tree(rng, 2)),
